@@ -24,6 +24,9 @@ CHECKS = {
  "C04": dict(level="fault_enumeration", sec="4 C04", tech="runtime monitoring: per-object protocol automaton over the manager/hook call log; exhaustive outcome-vector enumeration for one get",
    text="A protocol automaton per object checks order and completeness of the verification chain at every callback and hand-out; every error returned is matched against the unique number of the failing call; the outcome tree of one get over small pools is enumerated completely.",
    note="Errors carry unique numbers; hooks are the harness's own."),
+ "C05": dict(level="exploration", sec="4 C05", tech="runtime monitoring: identity-tagged objects with a location map (task level), thread-level one-preemption sweep and chaos with conservation/capacity probe at rest",
+   text="Every object carries an id and a logged destructor; a location map (in pool / held / handed back) is updated only from observed call results, so loss, duplication, a wrong try_add/add verdict, stranded callers and wrong status() figures at rest are visible. Real threads are parked at every schedule point of the unmanaged pool while one racing operation runs.",
+   note="Exactness clauses (try_add reports Timeout exactly while full) are only judged where the order of events is total (task level)."),
  "C06": dict(level="exploration", sec="4 C06", tech="runtime monitoring: close() inserted at random points of task-level histories + thread-level close sweep; destructor/detach log and call results",
    text="close() at a random point of random histories with getters in every phase; afterwards admission, blocked getters, idle objects, returns, resize, status and objects outliving the pool are checked from call results and the destructor log.",
    note="A getter already admitted at close may finish with an object; it is checked to be discarded on return."),
@@ -36,17 +39,20 @@ CHECKS = {
  "C09": dict(level="exploration", sec="4 C09", tech="runtime monitoring: self-recording predicates, detach/destructor ledger per object id",
    text="Stateful predicates record their own answers and RetainResult is compared with them; a per-object ledger demands exactly one detach for every object the pool lets go of and none for objects that stay.",
    note="A panicking predicate or detach is outside the quantifier."),
+ "C10": dict(level="fault_enumeration", sec="4 C10", tech="runtime monitoring: complete table of directed timeout scenarios on tokio's paused clock compared with a reference outcome table, plus random timing histories",
+   text="The finite table runtime x (wait, create, recycle) in {none, zero, finite}^3 x ordering of 'deadline passes' against 'slot freed' / 'step finishes' is executed completely against the real pool on the virtual clock (2700 managed scenarios, 54 build() cases, 60 unmanaged scenarios); each result is compared with the documented outcome, accepting both where the documentation leaves the case open.",
+   note="Runtime::AsyncStd1 is not driven (no virtual clock)."),
  "C11": dict(level="exploration", sec="4 C11", tech="runtime monitoring: status() sampled after every director action against ground truth (exact at quiescence, range checks otherwise)",
    text="status() is sampled after every action: exact equality with ground truth at quiescent points, plausibility bounds in between.",
    note="Thread-level sampling uses monotone bounds only."),
+ "C12": dict(level="exploration", sec="4 C12", tech="runtime monitoring: panic capture + thread-level one-preemption sweep of close() against every unmanaged operation at every schedule point; task-level histories continuing after close",
+   text="Thread A is parked at each schedule point of each unmanaged operation while close() (and every other operation) runs to completion on another thread, and vice versa; panics, results after close, objects kept by the closed pool and status at rest are checked; task-level histories continue after close().",
+   note="Whether an add racing close returns Ok or hands the object back is left open by the property; only 'the closed pool keeps nothing' is demanded."),
  "C13": dict(level="exploration", sec="4 C13", tech="runtime monitoring: per-object hand-out counter compared with Metrics at every callback, hand-out and retain",
    text="Long single-pool histories; the harness's own per-object hand-out counter and last reported instants are compared with the Metrics seen by hooks, recycle, retain and Object::metrics().",
    note="Instants are real (std) instants; only ordering is checked."),
 }
 PENDING = {
- "C05": "not built yet in this revision (unmanaged engine in progress)",
- "C10": "not built yet in this revision (timeout table in progress)",
- "C12": "not built yet in this revision (unmanaged engine in progress)",
  "C14": "not built yet in this revision", "C15": "not built yet in this revision",
  "C16": "not built yet in this revision", "C17": "not built yet in this revision",
  "C18": "not built yet in this revision", "C19": "not built yet in this revision",
